@@ -206,7 +206,12 @@ func extractTags(tag string) (*structtag.Tags, error) {
 		return nil, fmt.Errorf("could not unquote tags. %w", err)
 	}
 
-	return structtag.Parse(tag)
+	tags, err := structtag.Parse(tag)
+	if tags == nil && err == nil {
+		// An empty or blank tag
+		tags = &structtag.Tags{}
+	}
+	return tags, err
 }
 
 func plencValue(tag string) (int, error) {
